@@ -136,6 +136,7 @@ TEMPLATES = ['c1ccccc1', 'c1ccc2ccccc2c1', 'c1ccc2cc3ccccc3cc2c1', 'c1cc2ccc3ccc
              'c1ccc2c(c1)c1nc3nc(nc4[nH]c(nc5nc(nc2[nH]1)c1ccccc51)c1ccccc41)c1ccccc31',
              'c12c3c4c5c1c1c6c7c2c2c8c3c3c9c4c4c%10c5c5c1c1c6c6c%11c7c2c2c7c8c3c3c8c9c4c4c9c%10c5c5c1c1c6c6c%11c2c2c7c3c3c8c4c4c9c5c1c1c6c2c3c41',
              'c1cc[se]c1', 'c1ccc2[se]ccc2c1', 'c1cc[as]cc1', 'c1c[as]cc[as]1', 'c1ccc2[as]c3ccccc3[as]c2c1', 'c1cc[se+]cc1', 'c1c[se+]cc[se+]1', 'c1cc[te]c1', 'c1cc[asH]c1',
+             'O=s1cccc1', 'O=s1c2ccccc2c2ccccc12', 'O=p1(C)cccc1', 'O=s1ccs(=O)cc1', 'O=s1c2ccccc2s(=O)c2ccccc12', 'O=p1(O)cccc1', 'O=s1(=O)cccc1', 'Cp1(=O)ccc2ccccc12',
              'c1ccc2[te]ccc2c1', 'C[as+]1ccccc1', 'c1ccc2c(c1)ccc1c2ccc2ccccc12', 'c1cc2ccc3ccc4ccc5cccc6c(c1)c2c3c4c56']
 
 
